@@ -1,0 +1,66 @@
+//go:build verif
+
+package codec
+
+// Contracts for contract-based verification (/verif, properties C08, C01, C06, C03).
+// The encoder's output is the ghost string of its bytes.Buffer.
+
+//@ spec func out(enc *encoder) string = bufStr(enc.b)
+
+//@ func (*encoder).add
+//@   opt strings smt
+//@   requires enc != nil && enc.b != nil
+//@   ensures out(enc) == old(out(enc)) + string(b) && enc.b == old(enc.b)
+
+//@ func (*encoder).addQuoted
+//@   opt strings smt
+//@   requires enc != nil && enc.b != nil
+//@   ensures out(enc) == old(out(enc)) + "\"" + string(b) + "\"" && enc.b == old(enc.b)
+
+// README "Scalar Types": 32-bit integers, floats and booleans are bare literals, 64-bit integers
+// are quoted decimal strings.
+//@ func (*encoder).addInt32
+//@   opt strings smt
+//@   requires enc != nil && enc.b != nil
+//@   ensures bare: out(enc) == old(out(enc)) + itoa(val) && enc.b == old(enc.b)
+//@ func (*encoder).addUint32
+//@   opt strings smt
+//@   requires enc != nil && enc.b != nil
+//@   ensures bare: out(enc) == old(out(enc)) + itoa(val) && enc.b == old(enc.b)
+//@ func (*encoder).addInt64
+//@   opt strings smt
+//@   requires enc != nil && enc.b != nil
+//@   ensures quoted: out(enc) == old(out(enc)) + "\"" + itoa(val) + "\"" && enc.b == old(enc.b)
+//@ func (*encoder).addUint64
+//@   opt strings smt
+//@   requires enc != nil && enc.b != nil
+//@   ensures quoted: out(enc) == old(out(enc)) + "\"" + itoa(val) + "\"" && enc.b == old(enc.b)
+//@ func (*encoder).addBool
+//@   opt strings smt
+//@   requires enc != nil && enc.b != nil
+//@   ensures bare: out(enc) == old(out(enc)) + (val ? "true" : "false") && enc.b == old(enc.b)
+//@ func (*encoder).addFloat
+//@   opt strings smt
+//@   requires enc != nil && enc.b != nil
+//@   ensures bare: out(enc) == old(out(enc)) + ftoa(val, bitSize) && enc.b == old(enc.b)
+
+//@ func (*encoder).openObject
+//@   opt strings smt
+//@   requires enc != nil && enc.b != nil
+//@   ensures out(enc) == old(out(enc)) + "{" && enc.b == old(enc.b)
+//@ func (*encoder).closeObject
+//@   opt strings smt
+//@   requires enc != nil && enc.b != nil
+//@   ensures out(enc) == old(out(enc)) + "}" && enc.b == old(enc.b)
+//@ func (*encoder).openArray
+//@   opt strings smt
+//@   requires enc != nil && enc.b != nil
+//@   ensures out(enc) == old(out(enc)) + "[" && enc.b == old(enc.b)
+//@ func (*encoder).closeArray
+//@   opt strings smt
+//@   requires enc != nil && enc.b != nil
+//@   ensures out(enc) == old(out(enc)) + "]" && enc.b == old(enc.b)
+//@ func (*encoder).fieldSep
+//@   opt strings smt
+//@   requires enc != nil && enc.b != nil
+//@   ensures out(enc) == old(out(enc)) + "," && enc.b == old(enc.b)
